@@ -219,7 +219,10 @@ func crossRuntimeEqual(c *fw.Ctx, ts []shimType) {
 	}
 	ma, mb := a.gen(r), b.gen(r)
 	var got bool
-	if p := safely(func() { got = csproto.Equal(ma, mb) }); p != "" || got {
+	p0 := safely(func() { got = csproto.Equal(ma, mb) })
+	// the model of the dispatcher: different classes -> false whatever a runtime would say
+	c.Model("classes", fmt.Sprintf("M equal %d %d 0 1", int(csproto.MsgType(ma)), int(csproto.MsgType(mb))), map[bool]string{true: "panic", false: b01(got)}[p0 != ""])
+	if p := p0; p != "" || got {
 		c.Violate(fw.Violation{Stream: "classes", Signature: "shim/cross-runtime-equal", What: "Equal on messages of different runtimes must be false, not a panic", Input: a.name + " vs " + b.name, Expected: "false", Got: fmt.Sprint(got, p)})
 	}
 	c.Count("classes", "cross "+a.name+b.name, "cross-runtime-equal", 1, true)
@@ -304,7 +307,8 @@ var _ = bytes.Equal
 func runC11(c *fw.Ctx) int {
 	c.Facts = extractFacts(c)
 	c.Prove("C11")
-	ts := shimCorpus()
+	fc := floatCorpus()
+	ts := append(shimCorpus(), fc...)
 	n := 40
 	if c.Tier == "thorough" {
 		n = 3000
@@ -315,14 +319,28 @@ func runC11(c *fw.Ctx) int {
 		}
 		crossRuntimeEqual(c, ts)
 	}
+	// argument pairs (same pointer, clones, wire copies, copies that differ in one float, empty, typed nil) and every
+	// other function against the owning runtime: every float position x every special value, then random values
+	rounds, plain := 1, n/4
+	if c.Tier == "thorough" {
+		rounds, plain = 8, 150
+	}
+	for _, t := range fc {
+		floatCases(c, t, rounds)
+	}
+	for i := 0; i < plain; i++ {
+		for _, t := range ts {
+			plainPairs(c, t)
+		}
+	}
 	for _, u := range unsupportedValues() {
 		unsupportedCaseRun(c, u)
 	}
-	rounds := 60
+	races := 60
 	if c.Tier == "thorough" {
-		rounds = 5000
+		races = 5000
 	}
-	for i := 0; i < rounds; i++ {
+	for i := 0; i < races; i++ {
 		firstUseRace(c, ts[c.Rng.Intn(len(ts))], []int{2, 4, 16, 64}[c.Rng.Intn(4)])
 	}
 	c.Sample(map[string]interface{}{"stream": "classes", "types": func() []string {
@@ -336,7 +354,7 @@ func runC11(c *fw.Ctx) int {
 		c.LeanChecker("C11")
 	}
 	return c.Finish(
-		"classes: 14 real message types (gogo with and without fast-marshal methods, golang v1 old-style plain types, golang-v1-API and google v2 generated types with fast-marshal methods, google v2 well-known types incl. an empty message) with random values: Marshal/Unmarshal in both directions against the owning runtime's own functions, Size = len(Marshal), GrpcCodec, Clone, Equal (equal and mutated copies, cross-runtime pairs), MarshalText, Reset, MsgType vs the Lean classification of the measured capability vector; unsupported: 10 values of unsupported kinds through 13 functions (documented error / zero value, no panic); first-use: 2-64 goroutines classify a value concurrently right after the type cache was emptied; non-trivial = every case",
+		"classes: 32 real message types (gogo with and without fast-marshal methods, golang v1 old-style plain types, golang-v1-API and google v2 generated types with fast-marshal methods, google v2 and gogo well-known types incl. an empty message; 17 of them with float/double fields: singular, optional, repeated, in nested and repeated nested messages, as map values and oneof members) with random values: Marshal/Unmarshal in both directions against the owning runtime's own functions, Size = len(Marshal), GrpcCodec, Clone, Equal (equal and mutated copies, cross-runtime pairs), MarshalText, Reset, MsgType vs the Lean classification of the measured capability vector; unsupported: 10 values of unsupported kinds through 13 functions (documented error / zero value, no panic); pairs: for every float position of a populated message x {NaN, a second NaN payload, -0.0, +0.0, +Inf, -Inf, smallest denormal, 1.5} and for random values of every type: csproto.Equal against the runtime's Equal on the pairs (m, m) same pointer, (m, runtime clone) both ways, (m, csproto.Clone(m)), (m, copy through the wire), (m, copy with an unknown field), (m, mutated copy) both ways, (m, copy that differs in that one float) both ways, (m, empty) both ways, (m, typed nil) both ways, same-pointer pairs of the wire copy / the unknown-field copy / an empty message / typed nil, each pair also sent to the Lean model of the Equal dispatcher (classification of both arguments, pointer identity, the runtime's answer); Clone, MarshalText, Marshal/Size, Unmarshal, GrpcCodec and Reset against the runtime's function on the same values (messages compared with the runtime's Equal, or by text where that is not reflexive); first-use: 2-64 goroutines classify a value concurrently right after the type cache was emptied; non-trivial = every case",
 		append(trustedCommon, "the three protobuf runtimes' own Marshal/Unmarshal/Size/Clone/Equal/text functions (the oracle compares against them)", "sync.Map assumed linearizable"),
 		[]string{"data-race freedom of the type cache is not carried by the model (sync.Map is assumed linearizable); the interleaving model proves that every interleaving returns and caches deduce(v)",
 			"an old-style golang v1 type with fast-marshal methods cannot be produced offline (no such generator is cached); that combination is not exercised"})
